@@ -83,6 +83,7 @@ def run_case(ctx, bodies, upper, terminate, how, pad, cuts, bufsize, readpat, ti
               "cuts": list(cuts), "bufsize": bufsize, "readpat": readpat, "timeouts": list(timeouts)}
     sock = doubles.ScriptedSocket(encoded, sizes, budget=4 * len(encoded) + 4 * len(sizes) + 64)
     got = bytearray()
+    # (every scripted receive timeout takes 45 s of VIRTUAL time, see vf/__init__)
     try:
         try:
             w = SocketWrapper(sock, encoding=ENC[how], bufsize=bufsize)
@@ -91,7 +92,7 @@ def run_case(ctx, bodies, upper, terminate, how, pad, cuts, bufsize, readpat, ti
             # keep reading until the peer has sent everything AND three reads in a row delivered nothing (a read may
             # legitimately deliver nothing while a chunk is still incomplete or a receive timed out)
             while idle < 3 or sock._vpos < len(encoded) or sock._si < len(sock._sched):
-                k = 1 if readpat == 0 else rr.choice((1, 1, 2, 3, 7, 50))
+                k = 1 if readpat == 0 else (65536 if readpat == 9 else rr.choice((1, 1, 2, 3, 7, 50)))
                 r = w.read(k)
                 if not r and k > 1:
                     r = w.read(1)
@@ -191,6 +192,16 @@ def run(ctx):
         if not run_case(ctx, bodies, upper, term, how, 0, cuts, rng.choice((64, 4096, 4096, 65536)), 3):
             return
         ctx.hit("chunks_over_4096_bytes")
+    # (2c) thorough only: single chunks of 16 MiB and more (plain, and a highly compressible body under each compression)
+    if not ctx.quick and ctx.worker < 4:
+        how = hows[ctx.worker % 4]
+        body = (bytes(16 * 1024 * 1024 + 5) if how else rng.randbytes(0x1000000 + rng.randint(0, 3)))
+        enc, _ = refchunk.encode([b"ab", body, b"yz"], False, True, how, 0)
+        step = 1 << 20
+        cuts = tuple(range(step, len(enc), step))
+        if not run_case(ctx, [b"ab", body, b"yz"], False, True, how, 0, cuts, 65536, 9):
+            return
+        ctx.hit("chunks_of_16MiB")
     # (3) random partitions, byte-at-a-time, tiny bufsize, bigger bodies
     for it in range(ctx.n(40000, 400000)):
         bodies = make_bodies(rng, None, rng.choice((5, 40, 40, 300)))
